@@ -17,6 +17,23 @@ def tasks(run):
 
 
 def run(run):
+    from pyvc import inventory, components, runner
+    runner.load_contracts()
+    obs, inv = inventory.obligations()
+    for oid, ok, detail in obs:
+        run.count(oid, ok, 'static analysis of the AST of /repo (pyvc.inventory)', 0.0, 'property', 'unsat' if ok else 'sat',
+                  sample={'obligation': oid, 'verdict': 'discharged' if ok else 'refuted', 'detail': detail[:160]})
+        if not ok:
+            run.violation(oid, detail, replay={'kind': 'inventory', 'detail': detail, 'reset_assigns': {'%s.%s' % k: v for k, v in inv['reset'].items()},
+                                               'writes': {'%s.%s' % k: v for k, v in inv['writes'].items()}},
+                          signature={'location': oid.split('/')[2]}, reproduced=False)
+    components.ast_functions(run, ['PEPit/pep.py::PEP._reset_classes'], run.tier, rt_quick=3, rt_thorough=10)
+    run.trust('pyvc.inventory: syntactic inventory of class-level / module-level state and of the statements that write it',
+              'pyvc AST engine + z3 5.1 / cvc5 1.0.3')
+    run.assume('objects created before the last PEP() are outside every contract (documented usage): they keep references to the old registries',
+               'C12-O4 (every function reads global state only through inventoried locations) follows from the inventory being the complete set of class-level '
+               'bindings written anywhere under PEPit/ (examples excluded); attribute writes through dynamic names (setattr, __dict__) do not occur in the tree and are '
+               'searched for syntactically')
     hc.solve_scenarios(run, 'C12', tasks(run), 'rt-solve-histories',
                        'a model B (11 templates) is built and solved, then again after a random history of 1-3 other models that are only built, solved, '
                        'fail (unbounded / infeasible) or are abandoned mid-way; the SHA-256 of everything that reaches the solver (kinds, senses, dense '
